@@ -52,7 +52,9 @@ impl C09 {
     /// Run the real price adapter on a fork (permissionless pulse) and compare with Ref.
     fn probe_bank(&mut self, bk: &Pubkey, store: &Store, hook: &Hook, why: &str, out: &mut Vec<Violation>) {
         let Some(bank) = model::bank_of(store, bk) else { return };
-        if !matches!(bank.config.oracle_setup, OracleSetup::PythPushOracle | OracleSetup::SwitchboardPull | OracleSetup::Fixed | OracleSetup::StakedWithPythPush) {
+        if !matches!(bank.config.oracle_setup, OracleSetup::PythPushOracle | OracleSetup::SwitchboardPull | OracleSetup::Fixed | OracleSetup::StakedWithPythPush
+            | OracleSetup::KaminoPythPush | OracleSetup::KaminoSwitchboardPull | OracleSetup::SolendPythPull | OracleSetup::SolendSwitchboardPull
+            | OracleSetup::DriftPythPull | OracleSetup::DriftSwitchboardPull) {
             return;
         }
         let rem = crate::world::oracle_metas_for(&bank);
@@ -166,8 +168,8 @@ impl C09 {
 fn oracle_age(bank: &Bank, store: &Store, clock: crate::rt::SimClock) -> Option<i64> {
     let a = store.get(&bank.config.oracle_keys[0])?;
     match bank.config.oracle_setup {
-        OracleSetup::PythPushOracle | OracleSetup::StakedWithPythPush => crate::fixtures::parse_pyth(&a.data).map(|p| clock.unix_timestamp - p.publish_time),
-        OracleSetup::SwitchboardPull => crate::fixtures::parse_swb(&a.data).map(|p| clock.unix_timestamp - p.last_update_timestamp),
+        OracleSetup::PythPushOracle | OracleSetup::StakedWithPythPush | OracleSetup::KaminoPythPush | OracleSetup::SolendPythPull | OracleSetup::DriftPythPull => crate::fixtures::parse_pyth(&a.data).map(|p| clock.unix_timestamp - p.publish_time),
+        OracleSetup::SwitchboardPull | OracleSetup::KaminoSwitchboardPull | OracleSetup::SolendSwitchboardPull | OracleSetup::DriftSwitchboardPull => crate::fixtures::parse_swb(&a.data).map(|p| clock.unix_timestamp - p.last_update_timestamp),
         _ => None,
     }
 }
@@ -209,7 +211,7 @@ impl Monitor for C09 {
                 if ix.tag == "liquidate" && (e.code == 6057 || e.code == 6058) {
                     self.cov.probe("zero_price_liquidation_rejected");
                 }
-                if matches!(ix.tag, "borrow" | "withdraw" | "liquidate" | "handle_bankruptcy") {
+                if matches!(ix.tag, "borrow" | "liquidate" | "handle_bankruptcy") || super::is_withdraw(ix.tag) {
                     // was a liability oracle of the acted-on account doctored?
                     let acc = match ix.tag {
                         "liquidate" => Some(ix.accounts[5].pubkey),
@@ -232,7 +234,7 @@ impl Monitor for C09 {
             }
             let a = states[i];
             let b = states[i + 1];
-            if matches!(ix.tag, "borrow" | "withdraw" | "pulse_health") {
+            if matches!(ix.tag, "borrow" | "pulse_health") || super::is_withdraw(ix.tag) {
                 self.judge_foreign_oracle_accounts(ix, a, b, idx, out);
             }
             if ix.tag == "configure_bank_oracle" {
@@ -249,12 +251,12 @@ impl Monitor for C09 {
                 }
             }
             match ix.tag {
-                "borrow" | "withdraw" => {
+                "borrow" | "withdraw" | "solend_withdraw" | "kamino_withdraw" | "drift_withdraw" => {
                     let Some(k) = ix_user_account(ix) else { continue };
                     let (Some(pre), Some(post)) = (model::account_of(a, &k), model::account_of(b, &k)) else { continue };
                     let in_bracket = pre.account_flags & (ACCOUNT_IN_FLASHLOAN | ACCOUNT_IN_RECEIVERSHIP) != 0;
                     if in_bracket {
-                        if pre.account_flags & ACCOUNT_IN_RECEIVERSHIP != 0 && ix.tag == "withdraw" {
+                        if pre.account_flags & ACCOUNT_IN_RECEIVERSHIP != 0 && super::is_withdraw(ix.tag) {
                             // seizure price must be usable and positive
                             let bk = ix.accounts[3].pubkey;
                             if let Some(bank) = model::bank_of(a, &bk) {
@@ -303,7 +305,9 @@ impl Monitor for C09 {
                                         continue;
                                     }
                                     self.cov.probe("health_cache_prices_judged");
-                                    let tol = reported.abs() * 1e-9 + 1e-12;
+                                    // venue-backed banks: the exchange-rate adjustment truncates to the feed's integer mantissa
+                                    let adj = view.adj_err.to_f64().unwrap_or(0.0) * 4.0;
+                                    let tol = reported.abs() * 1e-9 + 1e-12 + adj;
                                     if pe.is_liab && recorded < reported - tol {
                                         out.push(viol("C09", "debt_valued_below_reported_price", ix.tag,
                                             format!("bank {}: used {recorded} reported {reported}", bal.bank_pk), idx));
@@ -312,7 +316,7 @@ impl Monitor for C09 {
                                         out.push(viol("C09", "collateral_valued_above_reported_price", ix.tag,
                                             format!("bank {}: used {recorded} reported {reported}", bal.bank_pk), idx));
                                     }
-                                    if (recorded - expect).abs() > expect.abs() * 1e-9 + 1e-12 {
+                                    if (recorded - expect).abs() > expect.abs() * 1e-9 + 1e-12 + adj {
                                         out.push(viol("C09", "bias_differs_from_capped_confidence", ix.tag,
                                             format!("bank {}: used {recorded} expected {expect} (reported {reported})", bal.bank_pk), idx));
                                     }
